@@ -187,7 +187,7 @@ static void thread_entry(int tid, void *arg) { run_program(tid, (Shared *)arg, t
 struct Viol { string cls, detail; };
 struct Stats {
     uint64_t plans = 0, steps = 0, events = 0, ctx_switches = 0, seq_steps = 0, ops = 0, lib_calls = 0, threads_hist[17] = { 0 }, policy_hist[5] = { 0 };
-    uint64_t write_shared = 0, sync_ops = 0, atomic_ops = 0, pseudo_writes = 0, outcome_cmp = 0, globals_dirty_after_seq = 0, races_seen = 0;
+    uint64_t inconclusive_shadow_overflow = 0, write_shared = 0, sync_ops = 0, atomic_ops = 0, pseudo_writes = 0, outcome_cmp = 0, globals_dirty_after_seq = 0, races_seen = 0;
     std::set<uint64_t> interleavings, plan_hashes, nontrivial;
     uint64_t kind[NKINDS] = { 0 };
 };
@@ -251,7 +251,8 @@ static void run_plan(const Plan &p, bool want_log, RunOut &ro, bool count = true
     if (res.deadlock) viol("C14:deadlock", "all unfinished threads are blocked");
     if (res.budget_exceeded) viol("C14:no-progress", "run exceeded 20x the sequential step count");
     if (!res.abort_what.empty() && !res.budget_exceeded && !res.deadlock) viol("C14:abort-in-thread", res.abort_what);
-    if (res.shadow_overflow) viol("harness:shadow-overflow", "race detector shadow table full");
+    // more distinct bytes touched than the detector can shadow: this run cannot be judged for races - counted, not an alarm
+    if (res.shadow_overflow) { ST.inconclusive_shadow_overflow++; rec("INCONCLUSIVE shadow table full"); }
     // ---- oracle 2: concurrent = sequential
     if (ro.viols.empty() || res.races.size()) {
         for (int t = 0; t < p.nthreads; t++) {
@@ -299,8 +300,12 @@ static void build_pool() {
     const char *more[] = { "user@example.com", "user@example.org", "user@sub.example.net", "x@mailbox.org", "x@localhost", "u@hidden.onion", "u@bad.invalid", "u@mail.info", "u@a.test", "u@host.email",
         "user@iana.org", "a@b.ru", "a@b.com", "\xd0\xb8\xd0\xb2\xd0\xb0\xd0\xbd@\xd0\xbf\xd0\xbe\xd1\x87\xd1\x82\xd0\xb0.\xd1\x80\xd1\x84", "u@xn--80a1acny.xn--p1ai", "u@\xe2\x98\x95.de",
         "x@[1.2.3.4]", "x@[IPv6:2001:db8::1]", "\"q s\"@mail.ru", "\xe7\x94\xa8\xe6\x88\xb7@\xe4\xbe\x8b\xe3\x81\x88.jp", "a..b@c.com", "u@host.museum", "u@host.aero", "u@nic.arpa", "u@x.bbva", "u@y.adac", "u@z.zw", "u@q.aaa",
-        "very.long.local.part.with.many.dots.and.words@a.b.c.d.e.f.iana.org", "u@EXAMPLE.COM", "u@Test", "u@example", "\xd1\x82\xd0\xb5\xd1\x81\xd1\x82@b\xc3\xbc" "cher.de" };
+        "very.long.local.part.with.many.dots.and.words@a.b.c.d.e.f.iana.org", "u@EXAMPLE.COM", "u@Test", "u@example",
+        // rooted (trailing dot) names, label lengths around internal limits, very long addresses
+        "user@example.com.", "u@sub.example.net.", "u@mail.ru.", "x@iana.org.", "u@a.test.", "u@localhost.", "u@hidden.onion.", "u@host.museum.", "u@\xd0\xbf\xd0\xbe\xd1\x87\xd1\x82\xd0\xb0.\xd1\x80\xd1\x84.",
+        "u@aaaaaaaaaaaaaaaaaaaaaaaaaaaaaaaaaaaaaaaaaaaaaaaaaaaaaaaaaaaaaaaaaaaaaaaaaaaaaaaaaaaaaaaaaaaaaaaaaaaaaaaaaaaaaaaaaaaaaaaaaaaaaaa.com", "u@a.b.c.d.e.f.g.h.i.j.k.l.m.n.o.p.q.r.s.t.u.v.w.x.y.z.example.org", "\xd1\x82\xd0\xb5\xd1\x81\xd1\x82@b\xc3\xbc" "cher.de" };
     for (auto m : more) g_pool.push_back(m);
+    for (size_t n : { (size_t)1023, (size_t)1025, (size_t)1100, (size_t)5000 }) { string dom; while (dom.size() + 12 < n) dom += "abcdefghij."; dom += "com"; g_pool.push_back("user@" + dom); g_pool.push_back("\xd0\xb8@" + dom); }
     // TLD pairs where one name is a proper prefix of the other and the classes differ: a cache or scratch buffer
     // shared between threads turns one into the other
     int nt = 0; while (tld_list[nt].domain) nt++;
@@ -418,6 +423,7 @@ static sj::Value stats_json() {
     j.set("sync_ops", ST.sync_ops); j.set("atomic_ops", ST.atomic_ops); j.set("hidden_state_libc_calls", ST.pseudo_writes);
     j.set("plans_where_library_statics_changed", ST.globals_dirty_after_seq); j.set("racing_pairs_seen", ST.races_seen);
     j.set("library_writable_static_bytes", (long long)rt::library_writable_bytes());
+    j.set("runs_inconclusive_shadow_table_full", ST.inconclusive_shadow_overflow);
     sj::Value th = sj::Value::object(); for (int i = 1; i <= 16; i++) if (ST.threads_hist[i]) th.set(std::to_string(i), ST.threads_hist[i]); j.set("plans_by_threads", th);
     sj::Value ph = sj::Value::object(); const char *pn[5] = { "replay", "random", "round_robin", "pct", "targeted" }; for (int i = 0; i < 5; i++) ph.set(pn[i], ST.policy_hist[i]); j.set("plans_by_strategy", ph);
     sj::Value k = sj::Value::object(); for (int i = 0; i < NKINDS; i++) k.set(KNAME[i], ST.kind[i]); j.set("ops_by_kind", k);
